@@ -188,8 +188,8 @@ func c07One(o *E2Out, dir string, in c07Input, full bool) {
 	eval := func(m permMode) {
 		in.Mode = m.String()
 		o.Evaluations++
-		if len(in.Edges) > 0 {
-			o.Distinct++
+		if len(in.Edges) > 0 && m.Kind == "default" {
+			o.Distinct++ // distinct inputs, not evaluations: the map-order variants of one input count once
 		}
 		var prj *types.Project
 		var err error
